@@ -414,8 +414,7 @@ def r6(ctx, R):
     spec = c02._spec()
     fams = sw.QD_SERIAL + sw.QD_MPI
     for meth in ('integrate', 'update_nodes', 'compute_end_point'):
-        for rel, cn in c02._impls(ctx.repo, fams, meth):
-            c02._check_sig(R, ctx.repo, rel, cn, meth, spec)
+        c02._check_all(R, ctx.repo, fams, meth, spec)
 
 
 @rule('C01', 'C01.R7', 'the number of time-parallel steps never changes the answer: what run() returns / carries to the next block is uend of the last ACTIVE step (value chain of run(), shared with C06.R1)', floor=12)
